@@ -13,6 +13,10 @@ CHECKS = {
    text="Real XR reconciler (production wiring, both composers) over the simulated API server: for fixed scenario shapes every API-call index of every reconcile x 6 fault outcomes (incl. crash after the write took effect), then fault-free retries to quiescence; invariants checked by a post-write hook on every intermediate store state. Held on the executions produced, not a proof.",
    note="Trusted: " + SIM + "; scripted functions served over real gRPC; single XR; composed kinds without finalizers.",
    technique="runtime monitoring: post-write invariant hook + fault enumeration over API-call indices", ref="3/C01"),
+ "C02": dict(cat="exploration",
+   text="For every write site named by the property (definition/offered CRDs, package-manager revision, active-revision establisher, RBAC provider roles / binding / XRD roles, XR composer with a function-chosen name, XR connection secret, composed resources re-parented after composition - both composers) a probe run records what the real controller creates; then an object of that kind and name is planted under a foreign controller reference (or uncontrolled) in a fresh world and the controller runs again. Oracle: foreign object byte-identical (same resourceVersion), no effective write in the log, conflict surfaced (error, Warning event or Synced=False).",
+   note="Trusted: " + SIM + " incl. the two-controller 422 the SSA composer relies on; the probe run defines the set of objects per site; claim connection secret placements are covered by C09.",
+   technique="runtime monitoring: probe-and-plant differential runs with store diff and write-log oracle", ref="3/C02"),
  "C03": dict(cat="exploration",
    text="Real XR reconciler (production wiring) over the simulated API server: generated 1-4 step pipelines of scripted gRPC functions (errors, fatal results, requirements that never stabilise) after an initial composition and a perturbed observed state; oracle over the write log: failing pipelines write nothing on composed kinds and leave resourceRefs untouched, successful ones delete exactly observed-minus-desired (reference fold of the scripted steps); P&T template loss/rename likewise. Held on the generated cases.",
    note="Trusted: " + SIM + "; the reference fold of scripted step add/del sets; requirement rounds scripted per reconcile.",
